@@ -187,10 +187,11 @@ func (e *c04Env) has(task string) bool {
 }
 
 type c04SnapEnv struct {
-	ID    string   `json:"id"`
-	State string   `json:"state"`
-	Tasks []string `json:"tasks"`
-	Dets  []string `json:"detectors"`
+	ID       string   `json:"id"`
+	State    string   `json:"state"`
+	Tasks    []string `json:"tasks"`
+	Unlocked []string `json:"tasks_not_locked,omitempty"`
+	Dets     []string `json:"detectors"`
 }
 
 type c04Snap struct {
@@ -215,6 +216,7 @@ type c04Hist struct {
 	order   []string
 	snaps   []*c04Snap
 	aborted bool
+	snapErr string
 }
 
 type c04Witness struct {
@@ -312,6 +314,16 @@ func c04Run(c *vlib.Ctx, idx int) {
 		}(cl)
 	}
 	wg.Wait()
+	if h.snapErr != "" {
+		// a snapshot failed with a transport error: either the core was dying (reported as a crash by
+		// finishSim) or something unknown happened
+		for i := 0; i < 100 && s.CoreAlive() && s.CoreCrash() == ""; i++ {
+			time.Sleep(50 * time.Millisecond)
+		}
+		if s.CoreAlive() && s.CoreCrash() == "" {
+			c.Inconclusive(fmt.Sprintf("history %d: snapshot failed with the core alive: %s", idx, h.snapErr))
+		}
+	}
 	if s.CoreAlive() && !h.aborted {
 		waitQuiet(s, 300*time.Millisecond, 10*time.Second)
 		if h.snapshot(s.Client, -1, p.Steps) != nil && s.CoreAlive() {
@@ -365,7 +377,13 @@ func (h *c04Hist) snapshot(cli pb.ControlClient, client, step int) error {
 	for _, e := range er.GetEnvironments() {
 		d := append([]string(nil), e.GetIncludedDetectors()...)
 		sort.Strings(d)
-		sn.Envs = append(sn.Envs, c04SnapEnv{ID: e.GetId(), State: e.GetState(), Tasks: taskIDs(e.GetTasks()), Dets: d})
+		se := c04SnapEnv{ID: e.GetId(), State: e.GetState(), Tasks: taskIDs(e.GetTasks()), Dets: d}
+		for _, t := range e.GetTasks() {
+			if !t.GetLocked() {
+				se.Unlocked = append(se.Unlocked, t.GetTaskId())
+			}
+		}
+		sn.Envs = append(sn.Envs, se)
 	}
 	h.mu.Lock()
 	h.snaps = append(h.snaps, sn)
@@ -665,50 +683,7 @@ func (h *c04Hist) client(cl int, r *rand.Rand) {
 			h.c.Count("req_"+req.Kind+"_err", 1)
 		}
 		if err != nil && strings.Contains(grpcMsg(err), "DeadlineExceeded") {
-			h.mu.Lock()
-			first := !h.aborted
-			h.aborted = true
-			h.mu.Unlock()
-			if !first {
-				return
-			}
-			waitQuiet(h.s, 2*time.Second, 6*time.Second)
-			h.s.DumpGoroutines() // SIGQUIT: this ends the core life; the dump is at the end of its stderr
-			full := ""
-			if b, rerr := os.ReadFile(h.s.StderrPath()); rerr == nil {
-				if i := strings.LastIndex(string(b), "SIGQUIT: quit"); i >= 0 {
-					full = string(b[i:])
-				}
-			}
-			dump := ""
-			lost := false
-			for _, blk := range strings.Split(full, "\n\n") {
-				if !strings.HasPrefix(blk, "goroutine ") {
-					continue
-				}
-				if strings.Contains(blk, "RpcServer") || strings.Contains(blk, "task.(*Manager)") || strings.Contains(blk, "environment.(*Manager)") || strings.Contains(blk, "schedulerState") {
-					dump += blk + "\n\n"
-				}
-				if strings.Contains(blk, "[chan receive") && strings.Contains(blk, "task.(*Manager).acquireTasks(") {
-					lost = true
-				}
-			}
-			_ = os.WriteFile(fmt.Sprintf("%s/hang-%03d.txt", h.c.OutDir, h.p.Index), []byte(dump), 0o644)
-			if d := os.Getenv("VERIF_C04_DUMP"); d != "" {
-				h.mu.Lock()
-				b, _ := json.MarshalIndent(map[string]interface{}{"params": h.p, "requests": h.reqs, "master": h.s.Master.Log()}, "", " ")
-				h.mu.Unlock()
-				_ = os.WriteFile(fmt.Sprintf("%s/hang-history-%03d.json", d, h.p.Index), b, 0o644)
-			}
-			if lost {
-				// Attributed, and outside this property: the scheduler reports the outcome of an offers round
-				// with a non-blocking send on an unbuffered channel; when acquireTasks is not yet receiving, the
-				// verdict is lost and acquireTasks waits forever holding the deployment lock, so every later
-				// creation blocks. The history is abandoned; what was recorded so far is still judged.
-				h.c.Count("histories_abandoned_deployment_outcome_lost", 1)
-			} else {
-				h.c.Inconclusive(fmt.Sprintf("history %d: %s request (client %d step %d) did not return within %s; blocked goroutines of the core: %s", h.p.Index, req.Kind, cl, step, apiTimeout, truncate(dump, 3000)))
-			}
+			h.stuck(fmt.Sprintf("%s request (client %d step %d) did not return within %s", req.Kind, cl, step, apiTimeout))
 			return
 		}
 		if !h.s.CoreAlive() {
@@ -718,15 +693,86 @@ func (h *c04Hist) client(cl int, r *rand.Rand) {
 			return
 		}
 		if serr := h.snapshot(cli, cl, step); serr != nil {
-			h.mu.Lock()
-			ab := h.aborted
-			h.aborted = true
-			h.mu.Unlock()
-			if !ab && h.s.CoreAlive() {
-				h.c.Inconclusive(fmt.Sprintf("history %d: snapshot failed: %s", h.p.Index, truncate(grpcMsg(serr), 200)))
+			if strings.Contains(grpcMsg(serr), "DeadlineExceeded") {
+				h.stuck(fmt.Sprintf("snapshot (client %d step %d) did not return within 60s", cl, step))
+				return
 			}
+			h.mu.Lock()
+			if !h.aborted {
+				h.aborted = true
+				h.snapErr = truncate(grpcMsg(serr), 200) // judged after the clients are done: a dying core is a crash, not an unknown
+			}
+			h.mu.Unlock()
 			return
 		}
+	}
+}
+
+// stuck ends the history after a request that did not return: the core's goroutines are dumped (which ends
+// the core life) and the expiry is either attributed to a defect outside this property or inconclusive.
+func (h *c04Hist) stuck(what string) {
+	h.mu.Lock()
+	first := !h.aborted
+	h.aborted = true
+	h.mu.Unlock()
+	if !first || !h.s.CoreAlive() {
+		return
+	}
+	waitQuiet(h.s, 2*time.Second, 6*time.Second)
+	h.s.DumpGoroutines() // SIGQUIT: this ends the core life; the dump is at the end of its stderr
+	full := ""
+	if b, rerr := os.ReadFile(h.s.StderrPath()); rerr == nil {
+		if i := strings.LastIndex(string(b), "SIGQUIT: quit"); i >= 0 {
+			full = string(b[i:])
+		}
+	}
+	dump, short := "", ""
+	outcomeLost, killAck := false, false
+	for _, blk := range strings.Split(full, "\n\n") {
+		if !strings.HasPrefix(blk, "goroutine ") {
+			continue
+		}
+		if strings.Contains(blk, "RpcServer") || strings.Contains(blk, "task.(*Manager)") || strings.Contains(blk, "environment.(*Manager)") || strings.Contains(blk, "schedulerState") {
+			dump += blk + "\n\n"
+			lines := strings.Split(blk, "\n")
+			short += lines[0]
+			for _, l := range lines[1:] {
+				if strings.HasPrefix(l, "github.com/AliceO2Group/Control/") {
+					if k := strings.LastIndex(l, "("); k > 0 {
+						l = l[:k]
+					}
+					short += " < " + strings.TrimPrefix(l, "github.com/AliceO2Group/Control/")
+				}
+			}
+			short += "\n"
+		}
+		if strings.Contains(blk, "[chan receive") && strings.Contains(blk, "task.(*Manager).acquireTasks(") && !strings.Contains(blk, "safeacks") {
+			outcomeLost = true
+		}
+		if strings.Contains(blk, "[chan receive") && strings.Contains(blk, "safeacks.(*SafeAcks).TryReceiveAck(") && strings.Contains(blk, "task.(*Manager).KillTasks(") {
+			killAck = true
+		}
+	}
+	_ = os.WriteFile(fmt.Sprintf("%s/hang-%03d.txt", h.c.OutDir, h.p.Index), []byte(dump), 0o644)
+	if d := os.Getenv("VERIF_C04_DUMP"); d != "" {
+		h.mu.Lock()
+		b, _ := json.MarshalIndent(map[string]interface{}{"params": h.p, "requests": h.reqs, "master": h.s.Master.Log()}, "", " ")
+		h.mu.Unlock()
+		_ = os.WriteFile(fmt.Sprintf("%s/hang-history-%03d.json", d, h.p.Index), b, 0o644)
+	}
+	switch {
+	case outcomeLost:
+		// Attributed, outside this property (progress of a deployment): the outcome of an offers round was handed
+		// over with a non-blocking send before acquireTasks was receiving; acquireTasks waits forever holding the
+		// deployment lock and every later creation blocks. What was recorded so far is still judged.
+		h.c.Count("histories_abandoned_deployment_outcome_lost", 1)
+	case killAck:
+		// Attributed, outside this property (progress of a destroy): KillTasks waits for the acknowledgement of a
+		// kill whose TASK_KILLED was consumed before the acknowledgement was registered (the task was killed by a
+		// concurrent cleanup between KillTasks' filter and its registration).
+		h.c.Count("histories_abandoned_kill_ack_never_received", 1)
+	default:
+		h.c.Inconclusive(fmt.Sprintf("history %d: %s; blocked goroutines of the core: %s", h.p.Index, what, truncate(short, 3000)))
 	}
 }
 
@@ -914,6 +960,22 @@ func (h *c04Hist) evaluate() {
 			for _, t := range se.Tasks {
 				if mt, found := mtasks[t]; found && mt.EnvID != se.ID {
 					c.Count("snapshot_tasks_claimed_from_another_environment", 1) // reuseUnlockedTasks at work
+				}
+			}
+		}
+		for _, a := range live {
+			// a live environment's tasks stay locked and stay in the core's task list: nobody but the
+			// environment's own teardown may release them, and cleanup only removes unlocked tasks
+			c.Count("snapshot_owned_tasks_judged", int64(len(a.Tasks)))
+			if len(a.Unlocked) > 0 {
+				violate("OWNED-NOT-LOCKED", "live-environment", fmt.Sprintf("GetEnvironments shows task %s of live environment %s (state %s, no destroy requested) as not locked: it was released by something other than the environment's teardown", a.Unlocked[0], a.ID, a.State), a.ID,
+					map[string]interface{}{"task": a.Unlocked[0], "snapshot": sn}, a.Unlocked[0])
+			}
+			for _, t := range a.Tasks {
+				if _, inRoster := sn.Roster[t]; !inRoster {
+					violate("CLEANUP-TOUCHED-OWNED", "roster-entry-lost", fmt.Sprintf("task %s of live environment %s (state %s) is missing from GetTasks: it was removed from the core's task list although it is owned", t, a.ID, a.State), a.ID,
+						map[string]interface{}{"task": t, "snapshot": sn}, t)
+					break
 				}
 			}
 		}
